@@ -231,6 +231,31 @@ class Run:
         return EXIT_HELD
 
 
+def note_current(obj):
+    """Record what this (shard) process is about to do, so that the parent can name the witness if
+    the process dies by a signal."""
+    try:
+        os.makedirs(WORK_DIR, exist_ok=True)
+        with open(os.path.join(WORK_DIR, f"current-{os.getpid()}.json"), "w") as f:
+            json.dump(jsonable(obj), f)
+    except OSError:
+        pass
+
+
+def read_current(pid):
+    path = os.path.join(WORK_DIR, f"current-{pid}.json")
+    try:
+        with open(path) as f:
+            d = json.load(f)
+    except (OSError, ValueError):
+        d = None
+    try:
+        os.unlink(path)
+    except OSError:
+        pass
+    return d
+
+
 def work_dir(tag: str):
     d = os.path.join(WORK_DIR, f"{tag}-{os.getpid()}")
     os.makedirs(d, exist_ok=True)
@@ -280,9 +305,9 @@ def run_shards(run: "Run", module: str, n_shards: int, timeout_s: int, extra_arg
                         continue
                 log.close()
                 del running[i]
-                results[i] = (rc, out, log.name)
+                results[i] = (rc, out, log.name, read_current(p.pid))
         for i in sorted(results):
-            rc, out, logname = results[i]
+            rc, out, logname, current = results[i]
             tail = ""
             try:
                 tail = open(logname).read()[-1500:]
@@ -293,7 +318,7 @@ def run_shards(run: "Run", module: str, n_shards: int, timeout_s: int, extra_arg
                 continue
             if rc != 0 or not os.path.exists(out):
                 if isinstance(rc, int) and rc < 0:
-                    run.violation("process-died", {"shard": i, "signal": -rc, "log_tail": tail})
+                    run.violation("process-died", {"shard": i, "signal": -rc, "was_doing": current, "log_tail": tail})
                 else:
                     run.inconclusive_because(f"shard {i} of {module} exited {rc}: {tail[-300:]}")
                 continue
